@@ -67,6 +67,14 @@ CLAIMED = {
         note="only the installed mmcif-pdbx 2.1.0 can be exercised ('any supported version' is partial); header categories are taken from a template (a CIF without them crashes read_cif: outside the generated domain)",
         ref="DESIGN.md §4 C10",
     ),
+    "C15": dict(
+        text="Lean theorems over the reals about a model of quatfit.py / utilities.py written once over an arithmetic interface: a unit quaternion gives an isometry that preserves cross products (proper rotation, never a mirror image); "
+        "the torsion matrix is an isometry fixing the axis for every angle; qchichange keeps all distances among moved points and to every point of the axis; the Jacobi eigenvector matrix stays orthogonal after ANY number of sweeps, "
+        "so find_coordinates always applies a proper rigid motion (placed-atom distances equal template distances); Horn's identity; exactness: if the structure is a proper rigid image of the template and the quaternion maximises the quadratic form, every template point is mapped onto its image. "
+        "The same definitions run in Float in the driver: every sampled find_coordinates answer is bit-identical to CPython. Oracle: the property's tolerances (1e-6 A, 0.05 degrees) on the real routines incl. set_dihedral_angle and rotate_tetrahedral on real residues.",
+        note="not proved, validated numerically on every sample: that 30 Jacobi sweeps reach the maximiser; floating-point rounding; the measured torsion after set_dihedral_angle. Partial on exactly those.",
+        ref="DESIGN.md §4 C15",
+    ),
     "C17": dict(
         text="Lean theorems about a model of psize: every grid dimension is 32k+1 with k>=1 for every input and arithmetic; over Q the boxes are centred, enclose the extent and fine<=coarse (cfac>=1, fadd>=0); "
         "the extent covers every parsed atom sphere; memory formula and dime line; input file names the PQR; header lines ignored (after fix); line parser exact on writer output under the separation predicate, "
